@@ -580,7 +580,7 @@ func (repo *Repository) CheckHeader(ctx context.Context,
 
 	branch, height := repo.branches.Find(hash)
 	if branch != nil {
-		return height, branch == repo.longest, nil
+		return height, repo.isInLongest(hash, height), nil
 	}
 
 	// Lookup in larger map
@@ -589,6 +589,13 @@ func (repo *Repository) CheckHeader(ctx context.Context,
 	}
 
 	return -1, false, ErrUnknownHeader
+}
+
+// isInLongest returns true if the header with the specified hash and height is part of the most
+// proof of work chain, which can span several branches.
+func (repo *Repository) isInLongest(hash bitcoin.Hash32, height int) bool {
+	data := repo.longest.AtHeight(height)
+	return data != nil && data.Hash.Equal(&hash)
 }
 
 // GetHeader returns the header with the specified hash with its block height and whether it is
@@ -605,7 +612,7 @@ func (repo *Repository) GetHeader(ctx context.Context,
 			return nil, -1, false, ErrHeaderNotAvailable
 		}
 
-		return data.Header, height, branch == repo.longest, nil
+		return data.Header, height, repo.isInLongest(hash, height), nil
 	}
 
 	// Lookup in larger map
